@@ -151,121 +151,6 @@ func intExpr(f *hc.Facts, e ast.Expr) (int64, bool) {
 	return 0, false
 }
 
-func dhParamsFacts(f *hc.Facts) {
-	fd := f.FuncDecl("crypto", "CheckDHParams")
-	if fd == nil || fd.Body == nil {
-		f.Missing("dhChecks", "crypto.CheckDHParams not found")
-		return
-	}
-	vars := map[string]int{"g": 0, "gA": 1, "gB": 2}
-	bounds := map[string]int{"one": 0, "dhPrimeMinusOne": 1, "safetyRangeMin": 2, "safetyRangeMax": 3}
-	var checks, defs []string
-	okAll := true
-	expOK := false
-	for _, s := range fd.Body.List {
-		switch x := s.(type) {
-		case *ast.AssignStmt: // bound definitions
-			if len(x.Lhs) == 1 && len(x.Rhs) == 1 {
-				if id, ok := x.Lhs[0].(*ast.Ident); ok {
-					defs = append(defs, fmt.Sprintf("(%q, %q)", id.Name, f.Src(x.Rhs[0])))
-					if id.Name == "safetyRangeMin" {
-						if args, ok := callNamed(x.Rhs[0], "Exp"); ok && len(args) == 3 {
-							b, ok1 := callNamed(args[0], "NewInt")
-							e, ok2 := callNamed(args[1], "NewInt")
-							if ok1 && ok2 && len(b) == 1 && len(e) == 1 {
-								bv, ok3 := intExpr(f, b[0])
-								ev, ok4 := intExpr(f, e[0])
-								if ok3 && ok4 && bv >= 0 && ev >= 0 {
-									f.Nat("safetyBase", int(bv), "base of safetyRangeMin in crypto.CheckDHParams")
-									f.Nat("safetyExp", int(ev), "exponent of safetyRangeMin ("+f.Src(e[0])+")")
-									expOK = true
-								}
-							}
-						}
-					}
-				}
-			}
-		case *ast.IfStmt: // if !InRange(x, lo, hi) { return err }
-			u, ok := x.Cond.(*ast.UnaryExpr)
-			if !ok || u.Op != token.NOT {
-				okAll = false
-				continue
-			}
-			args, ok := callNamed(u.X, "InRange")
-			if !ok || len(args) != 3 {
-				okAll = false
-				continue
-			}
-			var idx [3]int
-			for i, a := range args {
-				id, ok := a.(*ast.Ident)
-				if !ok {
-					okAll = false
-					break
-				}
-				m := bounds
-				if i == 0 {
-					m = vars
-				}
-				v, ok := m[id.Name]
-				if !ok {
-					okAll = false
-					break
-				}
-				idx[i] = v
-			}
-			if len(x.Body.List) != 1 {
-				okAll = false
-			} else if _, ok := x.Body.List[0].(*ast.ReturnStmt); !ok {
-				okAll = false
-			}
-			checks = append(checks, fmt.Sprintf("(%d, %d, %d)", idx[0], idx[1], idx[2]))
-		}
-	}
-	if okAll {
-		f.Raw("/-- `if !InRange(x, lo, hi) { return err }` statements of crypto.CheckDHParams in order; x: 0=g 1=gA 2=gB; bounds: 0=one 1=dhPrimeMinusOne 2=safetyRangeMin 3=safetyRangeMax -/")
-		f.Raw("def dhChecks : List (Nat × Nat × Nat) := [" + strings.Join(checks, ", ") + "]")
-	} else {
-		f.Missing("dhChecks", "unexpected statement shape in crypto.CheckDHParams")
-	}
-	f.Raw("def dhBounds : List (String × String) := [" + strings.Join(defs, ", ") + "] -- := definitions in crypto.CheckDHParams")
-	if !expOK {
-		f.Missing("safetyExp", "safetyRangeMin is not big.NewInt(0).Exp(big.NewInt(b), big.NewInt(e), nil)")
-	}
-	// InRange: x.Cmp(min) > 0 && x.Cmp(max) < 0
-	ir := f.FuncDecl("crypto", "InRange")
-	strictLo, strictHi, shape := false, false, false
-	if ir != nil && ir.Body != nil && len(ir.Body.List) == 1 {
-		if r, ok := ir.Body.List[0].(*ast.ReturnStmt); ok && len(r.Results) == 1 {
-			if and, ok := r.Results[0].(*ast.BinaryExpr); ok && and.Op == token.LAND {
-				l, ok1 := and.X.(*ast.BinaryExpr)
-				h, ok2 := and.Y.(*ast.BinaryExpr)
-				if ok1 && ok2 && f.Src(l.X) == "x.Cmp(min)" && f.Src(h.X) == "x.Cmp(max)" && f.Src(l.Y) == "0" && f.Src(h.Y) == "0" {
-					switch l.Op {
-					case token.GTR:
-						strictLo, shape = true, true
-					case token.GEQ:
-						shape = true
-					}
-					switch h.Op {
-					case token.LSS:
-						strictHi = true
-					case token.LEQ:
-					default:
-						shape = false
-					}
-				}
-			}
-		}
-	}
-	if shape {
-		f.Bool("inRangeStrictLo", strictLo, "crypto.InRange: x.Cmp(min) > 0 (strict) vs >= 0")
-		f.Bool("inRangeStrictHi", strictHi, "crypto.InRange: x.Cmp(max) < 0 (strict) vs <= 0")
-	} else {
-		f.Missing("inRangeStrictLo", "crypto.InRange is not `x.Cmp(min) >|>= 0 && x.Cmp(max) <|<= 0`")
-	}
-}
-
 func pqFacts(f *hc.Facts) {
 	fd := f.FuncDecl("crypto", "DecomposePQ")
 	if fd == nil || fd.Body == nil {
@@ -371,8 +256,11 @@ func facts(f *hc.Facts) {
 	} else {
 		f.Raw("def primeRounds : Nat := " + rounds + " -- crypto.Prime: probabilityN (Miller–Rabin rounds)")
 	}
-	dhParamsFacts(f)
 	pqFacts(f)
+	// the model of InRange / CheckDHParams itself is regenerated (bigtr.go)
+	tr := &bigTr{f: f, fns: map[string]string{}}
+	tr.translate("inRangeT", "InRange")
+	tr.translate("checkDHParamsT", "CheckDHParams")
 }
 
 // ---------------------------------------------------------------------------------------------
